@@ -148,3 +148,27 @@ def chirp_law(vc):
               Implies(And(k >= 0, k < n), Or(*[eq(val, lv * L.UF_COS(c)) for c in cands])))
     # orientation must matter only through the overall sign: the offset term and the drift term carry the same sign
     vc.ensure('C07/chirp/post/length', eq(out.value.shape[0], n))
+
+
+@contract('C07', 'written_header_locates_channels', functions=[C4.BK + '._header_populate_configuration', C4.BK + '.__init__'])
+def written_header_locates(vc):
+    """The header _header_populate_configuration writes for a real backend (both orientations, any first recorded channel): the centre of recorded
+    coarse channel c computed from the header's own OBSFREQ / OBSBW / CHAN_BW is the antenna's fch1 + (start_chan + c) * chan_bw, CHAN_BW carries the
+    band orientation and TBIN / OBSNCHAN describe the channelisation."""
+    npol = 1 + vc.choose(2, 'num_pols')
+    be, P = C4.build_backend(vc, npol, 8)
+    be.fields['obs_length'] = Real('obs_length')          # set by record() before the header is populated
+    be.fields['num_blocks'] = Int('num_blocks')
+    vc.assume(And(Real('obs_length') > 0, Int('num_blocks') >= 1))
+    out = vc.call(C4.BK + '._header_populate_configuration', be, {})
+    vc.cover('reachable')
+    vc.ensure('C07/written-header/exc/none', out.ok)
+    if not out.ok:
+        return
+    hd = out.value
+    fch1 = be.fields['antenna_source'].fields['fch1']
+    cbw = (1 if P['asc'] else -1) * P['sr'] / P['nb']
+    c = Int('c')
+    centre = hd['OBSFREQ'] - hd['OBSBW'] / 2 + (c + Fraction(1, 2)) * hd['CHAN_BW']
+    vc.ensure('C07/written-header/post/channel-c-centred-at-fch1+(start_chan+c)*chan_bw', eq(centre * 10 ** 6, fch1 + (P['sc'] + c) * cbw))
+    vc.ensure('C07/written-header/post/CHAN_BW-signed-by-orientation-TBIN-OBSNCHAN', And(eq(hd['CHAN_BW'] * 10 ** 6, cbw), eq(hd['TBIN'], P['nb'] / P['sr']), eq(hd['OBSNCHAN'], P['nc'])))
